@@ -3547,14 +3547,16 @@ class DecVar(Vars):
     def evtadapt(self, scens):
 
         if isinstance(scens, Scen):
+            # a Scen object holds scenario positions, not labels
             events = scens.series
+            events = [events] if isinstance(events, Real) else list(events)
+            indices = [int(event) for event in events]
         else:
             events = scens
-        # events = list(events) if isinstance(events, Iterable) else [events]
-        events = [events] if isinstance(events, (str, Real)) else list(events)
+            events = [events] if isinstance(events, (str, Real)) else list(events)
+            indices = [self.dro_model.series_scen[event] for event in events]
 
-        for event in events:
-            index = self.dro_model.series_scen[event]
+        for event, index in zip(events, indices):
             if self.default_event and index in self.event_adapt[0]:
                 self.event_adapt[0].remove(index)
             else:
@@ -3565,7 +3567,7 @@ class DecVar(Vars):
             self.event_adapt.pop(0)
             self.default_event = False
 
-        self.event_adapt.append(list(self.dro_model.series_scen[events]))
+        self.event_adapt.append(indices)
 
     def affadapt(self, rvars):
 
